@@ -29,6 +29,7 @@ EXTENDS Integers, Sequences, FiniteSets, TLC, IOUtils
 PropSel == IF "PROP" \in DOMAIN IOEnv THEN IOEnv.PROP ELSE "all"
 On(p) == PropSel = "all" \/ PropSel = p
 
+PingDetect == 46000   \* ms: longest ping period + ping timeout + 1 s
 MinTag == 2
 MaxTag == 16777214      \* 2^24 - 2
 
@@ -40,6 +41,9 @@ VARIABLES tclock,
           errOnly,     \* those of them whose reply had not been sent by the peer: must get an error
           ownerClosed, \* Close() was called by the owner
           signalled,   \* fault signal seen since the failure
+          everFaulted, \* the transport has raised its fault signal at some point (it never recovers from that)
+          silentSince, \* -1, or the time from which the multiplexed peer stopped answering anything
+          beforeSilence, \* requests that had been handed in when the silence began
           unanswered,  \* tags written and not yet answered on this connection
           recent,      \* tags answered by the peer since the last quiescent point (the client may not
                        \* have processed the answer yet, so they still count as in use for the bound)
@@ -52,11 +56,11 @@ VARIABLES tclock,
           maxTag,      \* highest tag written on this connection
           written,     \* number of request frames written (all connections)
           nreq         \* number of requests handed in
-tvars_ == <<tclock, reqs, delivered, failed, preFail, errOnly, ownerClosed, signalled, unanswered, recent, stray, held, peak, maxTag, written, nreq>>
+tvars_ == <<tclock, reqs, delivered, failed, preFail, errOnly, ownerClosed, signalled, everFaulted, silentSince, beforeSilence, unanswered, recent, stray, held, peak, maxTag, written, nreq>>
 
 TInit0(t0) ==
   /\ tclock = t0 /\ reqs = {} /\ delivered = <<>> /\ failed = FALSE /\ preFail = {} /\ errOnly = {}
-  /\ ownerClosed = FALSE /\ signalled = FALSE /\ unanswered = {} /\ recent = {} /\ stray = {} /\ held = {} /\ peak = 0 /\ maxTag = 0
+  /\ ownerClosed = FALSE /\ signalled = FALSE /\ everFaulted = FALSE /\ silentSince = -1 /\ beforeSilence = {} /\ unanswered = {} /\ recent = {} /\ stray = {} /\ held = {} /\ peak = 0 /\ maxTag = 0
   /\ written = 0 /\ nreq = 0
 
 Mono(t) == IF t >= tclock THEN "ok" ELSE "harness.clockMonotone"
@@ -71,11 +75,12 @@ OpenedUpd(ok, t) ==
   /\ errOnly' = IF ok THEN {} ELSE (IF failed THEN errOnly ELSE InFlight)
   /\ signalled' = IF ok THEN FALSE ELSE signalled
   /\ ownerClosed' = IF ok THEN FALSE ELSE ownerClosed
+  /\ UNCHANGED <<everFaulted, silentSince, beforeSilence>>
   /\ UNCHANGED <<reqs, delivered, unanswered, recent, stray, held, peak, maxTag, written, nreq>>
 
 ReqCheck(r, t) == IF Mono(t) # "ok" THEN Mono(t) ELSE IF r \in reqs THEN "harness.freshReq" ELSE "ok"
 ReqUpd(r, t) == /\ tclock' = t /\ reqs' = reqs \cup {r} /\ nreq' = nreq + 1
-                /\ UNCHANGED <<delivered, failed, preFail, errOnly, ownerClosed, signalled, unanswered, recent, stray, held, peak, maxTag, written>>
+                /\ UNCHANGED <<delivered, failed, preFail, errOnly, ownerClosed, signalled, everFaulted, silentSince, beforeSilence, unanswered, recent, stray, held, peak, maxTag, written>>
 
 \* exactly once: never a second message on a request's stack; after a connection failure the
 \* one message an in-flight request gets must be an error
@@ -88,7 +93,7 @@ DeliverCheck(r, isErr, t) ==
 DeliverUpd(r, isErr, t) ==
   /\ tclock' = t
   /\ delivered' = IF r \in DOMAIN delivered THEN [delivered EXCEPT ![r] = @ + 1] ELSE delivered @@ (r :> 1)
-  /\ UNCHANGED <<reqs, failed, preFail, errOnly, ownerClosed, signalled, unanswered, recent, stray, held, peak, maxTag, written, nreq>>
+  /\ UNCHANGED <<reqs, failed, preFail, errOnly, ownerClosed, signalled, everFaulted, silentSince, beforeSilence, unanswered, recent, stray, held, peak, maxTag, written, nreq>>
 
 \* must = requests handed in and not yet delivered; errs = those whose reply the peer had not sent
 FailSeenCheck(must, errs, t) == Mono(t)
@@ -97,14 +102,14 @@ FailSeenUpd(must, errs, t) ==
   /\ failed' = TRUE
   /\ preFail' = IF failed THEN preFail ELSE {must[i] : i \in DOMAIN must} \cap InFlight
   /\ errOnly' = IF failed THEN errOnly ELSE {errs[i] : i \in DOMAIN errs} \cap InFlight
-  /\ UNCHANGED <<reqs, delivered, ownerClosed, signalled, unanswered, recent, stray, held, peak, maxTag, written, nreq>>
+  /\ UNCHANGED <<reqs, delivered, ownerClosed, signalled, everFaulted, silentSince, beforeSilence, unanswered, recent, stray, held, peak, maxTag, written, nreq>>
 
 OwnerCloseCheck(t) == Mono(t)
 OwnerCloseUpd(t) == /\ tclock' = t /\ ownerClosed' = TRUE
-                    /\ UNCHANGED <<reqs, delivered, failed, preFail, errOnly, signalled, unanswered, recent, stray, held, peak, maxTag, written, nreq>>
+                    /\ UNCHANGED <<reqs, delivered, failed, preFail, errOnly, signalled, everFaulted, silentSince, beforeSilence, unanswered, recent, stray, held, peak, maxTag, written, nreq>>
 
 FaultedCheck(t) == Mono(t)
-FaultedUpd(t) == /\ tclock' = t /\ signalled' = TRUE
+FaultedUpd(t) == /\ tclock' = t /\ signalled' = TRUE /\ everFaulted' = TRUE /\ UNCHANGED <<silentSince, beforeSilence>>
                  /\ UNCHANGED <<reqs, delivered, failed, preFail, errOnly, ownerClosed, unanswered, recent, stray, held, peak, maxTag, written, nreq>>
 
 \* At a quiescent point after a failure (not an owner-initiated Close): every request that was in
@@ -114,9 +119,18 @@ QuietCheck(st, t) ==
   ELSE IF On("C08") /\ failed /\ ~ownerClosed /\ \E r \in preFail : Cnt(r) = 0 THEN "C08.failOnce"
   ELSE IF On("C08") /\ failed /\ ~ownerClosed /\ st # 4 THEN "C08.closed"
   ELSE IF On("C08") /\ failed /\ ~ownerClosed /\ ~signalled THEN "C08.signal"
+  \* a transport that has raised its fault signal is dead: it must not report itself open again
+  ELSE IF On("C08") /\ everFaulted /\ ~ownerClosed /\ st # 4 THEN "C08.closed"
+  \* a multiplexed peer that has been silent for longer than the longest ping period (40 s) plus the
+  \* ping timeout (5 s): everything handed in before the silence began has been failed, the transport
+  \* reports Closed and has signalled
+  ELSE IF On("C08") /\ silentSince >= 0 /\ ~ownerClosed /\ t >= silentSince + PingDetect
+          /\ \E r \in reqs : Cnt(r) = 0 /\ r \in beforeSilence THEN "C08.failOnce"
+  ELSE IF On("C08") /\ silentSince >= 0 /\ ~ownerClosed /\ t >= silentSince + PingDetect /\ st # 4 THEN "C08.closed"
+  ELSE IF On("C08") /\ silentSince >= 0 /\ ~ownerClosed /\ t >= silentSince + PingDetect /\ ~everFaulted THEN "C08.signal"
   ELSE "ok"
 QuietUpd(st, t) == /\ tclock' = t /\ recent' = {} /\ stray' = {}
-                   /\ UNCHANGED <<reqs, delivered, failed, preFail, errOnly, ownerClosed, signalled, unanswered, held, peak, maxTag, written, nreq>>
+                   /\ UNCHANGED <<reqs, delivered, failed, preFail, errOnly, ownerClosed, signalled, everFaulted, silentSince, beforeSilence, unanswered, held, peak, maxTag, written, nreq>>
 
 \* The driver issues a probe only when the transport reports Open with nothing in flight.
 ProbeCheck(wrote, t) ==
@@ -128,6 +142,14 @@ ProbeUpd(wrote, t) == QuietUpd(0, t)
 \* The client matches frames to requests by tag alone, whatever the message type: any frame the
 \* client has read that names a tag answers that tag.
 IsAnswer(type) == TRUE
+
+\* the multiplexed peer stops answering (pings included) / resumes
+SilenceCheck(on, t) == Mono(t)
+SilenceUpd(on, t) ==
+  /\ tclock' = t
+  /\ silentSince' = IF on THEN (IF silentSince >= 0 THEN silentSince ELSE t) ELSE -1
+  /\ beforeSilence' = IF on THEN (IF silentSince >= 0 THEN beforeSilence ELSE reqs) ELSE {}
+  /\ UNCHANGED <<reqs, delivered, failed, preFail, errOnly, ownerClosed, signalled, everFaulted, unanswered, recent, stray, held, peak, maxTag, written, nreq>>
 
 FrameOutCheck(type, tag, t) ==
   IF Mono(t) # "ok" THEN Mono(t)
@@ -145,7 +167,7 @@ FrameOutUpd(type, tag, t) ==
           /\ maxTag' = IF tag > maxTag THEN tag ELSE maxTag
           /\ written' = written + 1
      ELSE UNCHANGED <<unanswered, stray, held, peak, maxTag, written>>
-  /\ UNCHANGED <<reqs, delivered, failed, preFail, errOnly, ownerClosed, signalled, recent, nreq>>
+  /\ UNCHANGED <<reqs, delivered, failed, preFail, errOnly, ownerClosed, signalled, everFaulted, silentSince, beforeSilence, recent, nreq>>
 
 FrameInCheck(type, tag, t) == Mono(t)
 FrameInUpd(type, tag, t) ==
@@ -154,7 +176,7 @@ FrameInUpd(type, tag, t) ==
   /\ recent' = IF tag \in held THEN recent \cup {tag} ELSE recent
   /\ held' = held \ {tag}
   /\ stray' = IF tag \notin unanswered THEN stray \cup {tag} ELSE stray
-  /\ UNCHANGED <<reqs, delivered, failed, preFail, errOnly, ownerClosed, signalled, peak, maxTag, written, nreq>>
+  /\ UNCHANGED <<reqs, delivered, failed, preFail, errOnly, ownerClosed, signalled, everFaulted, silentSince, beforeSilence, peak, maxTag, written, nreq>>
 
 \* tag consumption is bounded by peak concurrency (+ requests that never reached the wire)
 Bounded == maxTag <= 1 + peak + (nreq - written)
@@ -165,7 +187,7 @@ ReopenCheck(t) ==
   ELSE "ok"
 ReopenUpd(t) ==
   /\ tclock' = t /\ unanswered' = {} /\ recent' = {} /\ stray' = {} /\ held' = {} /\ peak' = 0 /\ maxTag' = 0 /\ written' = 0 /\ nreq' = 0
-  /\ UNCHANGED <<reqs, delivered, failed, preFail, errOnly, ownerClosed, signalled>>
+  /\ UNCHANGED <<reqs, delivered, failed, preFail, errOnly, ownerClosed, signalled, everFaulted, silentSince, beforeSilence>>
 
 EndCheck(t) == ReopenCheck(t)
 EndUpd(t) == QuietUpd(0, t)
